@@ -10,6 +10,7 @@
 import SimVerif.Kernel
 import SimVerif.Queue
 import SimVerif.Tcp
+import SimVerif.Nat
 import SimVerif.Pcap
 import SimVerif.Resolver
 
@@ -81,12 +82,15 @@ structure KSt where
   wrOff : List (String × Nat) := []            -- "<socket>/<stream>" ↦ next offset to write
   wrKeys : List (Nat × String) := []
   rs : List (String × (String × R)) := []      -- resolvers: name ↦ (node, state)
+  loops : List (Nat × (String × String × Nat × Nat × Nat)) := []   -- handler ↦ (kind, socket, a, b, c): self-perpetuating transfers
   hidden : List String := []                   -- sockets of a socket-returning accept, not yet handed to the program
   pendNew : List (Nat × String) := []          -- accept handler ↦ the socket it will hand over           -- write handler ↦ its offset key                    -- capture log (reversed)
   pend : List (Nat × Nat) := []     -- timer ↦ handler id of the wait whose slot may be busy
   out  : List String := []          -- reversed
   stepNo : Nat := 0                 -- event boundaries seen (step hook)
   bad  : Bool := false
+  threw : Bool := false                        -- run() left through its catch-all
+  thrown : Bool := false                       -- a handler threw: unwinding to run()'s catch-all
   pendFinish : Option (String × Bool) := none  -- resolver whose on_lookup must finish after the inline handler
   pendInv : List Compl := []                   -- handlers to be called inline by the current internal callback
   dead : List Nat := []             -- destroyed timer ids (never reused)
@@ -188,11 +192,6 @@ def applyQEffs (p : KParams) (qi : Nat) (effs : List QEff) (s : KSt) : KSt :=
 def ip4 (a : String) : Nat :=
   (a.splitOn ".").foldl (fun acc x => acc * 256 + (x.toNat?.getD 0)) 0
 
-def natRewrite (src ext : String) : String :=
-  match (src.splitOn ":").getLast? with
-  | some port => ext ++ ":" ++ port
-  | none => src
-
 /-- the kernel timer standing for an internal timer object (allocated on first use) -/
 def KSt.itimer (s : KSt) (owner : String) (slot : Nat) : KSt × Nat :=
   match s.itimers.lookup (owner, slot) with
@@ -250,11 +249,9 @@ def forwardPkt (p : KParams) : Nat → Pkt → KSt → KSt
       | some .hole => s
       | some .probe => forwardPkt p f pk (s.emit (describePkt "P" name s.k.now pk pk.hasDrop))
       | some (.nat ext) =>
-        -- rewrites `from`, and on a SYN the connecting side's visible endpoint
-        let s := match pk.ty, pk.chan.bind s.net.chan? with
-          | .syn, some ch => { s with net := s.net.setChan (pk.chan.getD 0) { ch with vis0 := { ch.vis0 with addr := ext } } }
-          | _, _ => s
-        forwardPkt p f { pk with src := natRewrite pk.src ext } s
+        -- rewrites `from`, and on a SYN the connecting side's visible endpoint: SimVerif/Nat.lean
+        let r := natApply ext pk s.net.chans
+        forwardPkt p f r.1 { s with net := { s.net with chans := r.2 } }
       | some (.echo route ty len ovh) =>
         forwardPkt p f { id := 100000 + pk.id, ty := ty, len := len, ovh := ovh, hops := route, src := "0.0.0.0:0" } s
       | some (.dropper di) =>
@@ -428,6 +425,16 @@ def objNode (op : List String) (s : KSt) : String :=
   | _ :: nd :: _ => nd
   | _ => ((s.net.cfg.nodes.head?).map Prod.fst).getD "n0"
 
+/-- one round of `write_loop`: write the next chunk of the stream -/
+def loopWrite (p : KParams) (hn : Nat) (name : String) (stream total chunk : Nat) (s : KSt) : KSt :=
+  let key := name ++ "/" ++ toString stream
+  let off := (s.wrOff.lookup key).getD 0
+  let len := min chunk (total - min total off)
+  let data := (List.range len).map (fun i => streamByte stream (off + i))
+  let s := { s with wrKeys := (hn, key) :: s.wrKeys.filter (·.1 != hn) }
+  let r := s.net.tcpAsyncWrite name { h := hn, bufs := [data], stream := stream, off := off }
+  applyNEffs p netFuel r.2 { s with net := r.1 }
+
 /-- ops on TCP sockets (`s<k>`), acceptors (`a<k>`) and UDP sockets (`u<k>`). `none` = not a
     network op. Result strings are those of harness/simdrv_net.cpp. -/
 def doNetOp (p : KParams) (ctx : String) (op : List String) (s : KSt) : Option KSt :=
@@ -512,7 +519,10 @@ def doNetOp (p : KParams) (ctx : String) (op : List String) (s : KSt) : Option K
             -- the connect timer is destroyed with the socket: a parked refusal is delivered now
             let s := applyNEffs p netFuel [.cancelTimer name 0] s
             some (res { s with net := { s.net with tcps := s.net.tcps.filter (·.1 != name) } } "-")
-          | "open", v :: _ => some (res (fx (s.net.tcpOpen now name (v != "v6")) s) "ok")
+          | "open", v :: _ =>
+            -- acceptor::open(): close as an acceptor first (stop listening, reset queued connections)
+            let s := if isAcc then fx (s.net.accClose now name) s else s
+            some (res (fx (s.net.tcpOpen now name (v != "v6")) s) "ok")
           | "bind", e :: _ =>
             match Ep.parse e with
             | none => some (res s "bad-op")
@@ -546,6 +556,18 @@ def doNetOp (p : KParams) (ctx : String) (op : List String) (s : KSt) : Option K
               let caps := (cutSizes ((findNat? rest "cap").getD 1) ((findNat? rest "bufs").getD 1)).filter (· > 0)
               some (res (fx (s.net.tcpAsyncRead name { h := hn, caps := caps }) s) "-")
           | "wait_read", h :: _ => (hOf h).map (fun hn => res (fx (s.net.tcpWaitRead name hn) s) "-")
+          | "read_loop", h :: rest =>
+            (hOf h).map (fun hn =>
+              let cap := (findNat? rest "cap").getD 4096
+              let s := { s with loops := (hn, ("read", name, cap, 0, 0)) :: s.loops.filter (·.1 != hn) }
+              res (fx (s.net.tcpAsyncRead name { h := hn, caps := [cap] }) s) "-")
+          | "write_loop", h :: rest =>
+            (hOf h).map (fun hn =>
+              let stream := (findNat? rest "stream").getD 0
+              let total := (findNat? rest "total").getD 1
+              let chunk := (findNat? rest "chunk").getD 1000
+              let s := { s with loops := (hn, ("write", name, stream, total, chunk)) :: s.loops.filter (·.1 != hn) }
+              res (loopWrite p hn name stream total chunk s) "-")
           | "read_nb", rest =>
             let caps := (cutSizes ((findNat? rest "cap").getD 1) ((findNat? rest "bufs").getD 1)).filter (· > 0)
             let r := s.net.tcpReadNb name caps
@@ -658,6 +680,7 @@ def doOp (p : KParams) (scn : Scn) (depth : Nat) (ctx : String) (op : List Strin
   let text := joinSp op
   let c := "C " ++ ctx ++ " "
   match op with
+  | ["throw"] => ({ s with thrown := true }).emit (c ++ "throw")
   | ["stop"] => ({ s with k := step p s.k .stop }).emit (c ++ "stop => -")
   | ["restart"] => ({ s with k := step p s.k .restart }).emit (c ++ "restart => -")
   | ["now"] => s.emit (c ++ "now => " ++ toString s.k.now)
@@ -731,7 +754,9 @@ def doOp (p : KParams) (scn : Scn) (depth : Nat) (ctx : String) (op : List Strin
 def doOps (p : KParams) (scn : Scn) (depth : Nat) (ctx : String) (ops : List (List String)) (s : KSt) : KSt :=
   match ops with
   | [] => s
-  | op :: rest => doOps p scn depth ctx rest (doOp p scn depth ctx op s)
+  | op :: rest =>
+    let s := doOp p scn depth ctx op s
+    if s.thrown then s else doOps p scn depth ctx rest s
 end
 
 /-- `poll()`: run ready handlers until none is left. Returns the count. -/
@@ -804,18 +829,59 @@ def pollLoop (p : KParams) (scn : Scn) : Nat → KSt → Nat → KSt × Nat
           let s := match s.pendNew.lookup t.h with
             | some nn => { s with hidden := s.hidden.filter (· != nn), pendNew := s.pendNew.filter (·.1 != t.h) }
             | none => s
-          doOps p scn 8 h (scn.ops h) s
+          -- self-perpetuating transfers re-issue themselves; their context's ops run when they end
+          match s.loops.lookup t.h with
+          | some ("read", sock, cap, _, _) =>
+            if ec == Ec.ok then
+              let r := s.net.tcpAsyncRead sock { h := t.h, caps := [cap] }
+              applyNEffs p netFuel r.2 { s with net := r.1 }
+            else doOps p scn 8 h (scn.ops h) { s with loops := s.loops.filter (·.1 != t.h) }
+          | some ("write", sock, stream, total, chunk) =>
+            let key := sock ++ "/" ++ toString stream
+            if ec == Ec.ok && (s.wrOff.lookup key).getD 0 < total then loopWrite p t.h sock stream total chunk s
+            else doOps p scn 8 h (scn.ops h) { s with loops := s.loops.filter (·.1 != t.h) }
+          | _ => doOps p scn 8 h (scn.ops h) s
+      -- an exception leaves poll_one() at once: no step hook, no further handler
+      if s.thrown then (s, n) else
       -- step hook `after_handler`: scenario ops placed at this event boundary
       let s := { s with stepNo := s.stepNo + 1 }
       let sc := "s" ++ toString s.stepNo
       let s := doOps p scn 8 sc (scn.ops sc) s
+      if s.thrown then (s, n + 1) else
       pollLoop p scn f s (n + 1)
+
+/-- order of `std::map<endpoint, …>`: IPv4 before IPv6, then address, then port -/
+def epLe (a b : Ep) : Bool :=
+  if a.isV4 != b.isV4 then a.isV4
+  else if a.addr != b.addr then (if a.isV4 then ip4 a.addr ≤ ip4 b.addr else a.addr ≤ b.addr)
+  else a.port ≤ b.port
+
+def sortEps (l : List (Ep × String)) : List (Ep × String) :=
+  l.foldl (fun acc x =>
+    let (lo, hi) := acc.partition (fun y => epLe y.1 x.1)
+    lo ++ [x] ++ hi) []
+
+/-- the `catch (...)` block of `simulation::run()`: cancel every timer (a copy of the queue),
+    every bound TCP socket (`tcp::socket::cancel`, also for acceptors: their accepts are NOT
+    aborted), every bound UDP socket; stop; rethrow -/
+def runCatch (p : KParams) (s : KSt) : KSt :=
+  let s := s.k.tq.foldl (fun (s : KSt) (x : Int × Nat) => { s with k := step p s.k (.cancel x.2) }) s
+  let s := (sortEps s.net.reg.tcp).foldl (fun (s : KSt) (x : Ep × String) =>
+    match s.net.tcp? x.2 with
+    | some t => let r := t.cancel; applyNEffs p netFuel r.2 { s with net := s.net.setTcp x.2 r.1 }
+    | none => s) s
+  let s := (sortEps s.net.reg.udp).foldl (fun (s : KSt) (x : Ep × String) =>
+    match s.net.udp? x.2 with
+    | some u => let r := u.cancel x.2; applyNEffs p netFuel r.2 { s with net := s.net.setUdp x.2 r.1 }
+    | none => s) s
+  { s with k := step p s.k .stop, thrown := false, threw := true }
 
 /-- `simulation::run()` -/
 def runLoop (p : KParams) (scn : Scn) : Nat → KSt → Nat → KSt × Nat
   | 0, s, r => ({ s with bad := true }, r)
   | f + 1, s, ret =>
     let (s, n) := pollLoop p scn 100000 s 0
+    if s.thrown then (runCatch p s, ret + n) else
     let s := s.emit ("K idle t=" ++ toString s.k.now)
     let m := (advance p s.k).2
     let s := { s with k := step p s.k .advance }
@@ -828,7 +894,8 @@ def runTop (p : KParams) (scn : Scn) : List (List String) → KSt → KSt
   | ["run"] :: rest, s =>
     let s := s.emit "C top run"
     let (s, r) := runLoop p scn 100000 s 0
-    let s := s.emit ("R top run => n=" ++ toString r ++ " t=" ++ toString s.k.now)
+    let s := if s.threw then { s with threw := false }.emit ("R top run => throw t=" ++ toString s.k.now)
+             else s.emit ("R top run => n=" ++ toString r ++ " t=" ++ toString s.k.now)
     runTop p scn rest s
   | op :: rest, s => runTop p scn rest (doOp p scn 8 "top" op s)
 
